@@ -324,5 +324,68 @@ pub proof fn lemma_dup_card<T>(q: Seq<T>)
     r.lemma_cardinality_of_set();
 }
 
+
+// ---- repairable threshold scheme (C11) ----
+pub open spec fn spec_scalar_sum<C: Ciphersuite>(v: Seq<Scalar<C>>, n: nat) -> Scalar<C> decreases n
+{ if n == 0 { s0::<C>() } else { sadd::<C>(spec_scalar_sum::<C>(v, (n - 1) as nat), v[n - 1]) } }
+pub open spec fn spec_delta_sum<C: Ciphersuite>(v: Seq<crate::keys::repairable::Delta<C>>, n: nat) -> Scalar<C> decreases n
+{ if n == 0 { s0::<C>() } else { sadd::<C>(spec_delta_sum::<C>(v, (n - 1) as nat), v[n - 1].0.0) } }
+pub open spec fn spec_sigma_sum<C: Ciphersuite>(v: Seq<crate::keys::repairable::Sigma<C>>, n: nat) -> Scalar<C> decreases n
+{ if n == 0 { s0::<C>() } else { sadd::<C>(spec_sigma_sum::<C>(v, (n - 1) as nat), v[n - 1].0.0) } }
+
+// what `helpers.iter().copied().zip(values).collect()` builds: the k-th smallest helper gets the k-th value
+pub open spec fn spec_zip_deltas<C: Ciphersuite>(m: Map<Identifier<C>, crate::keys::repairable::Delta<C>>, srt: Seq<Identifier<C>>, vals: Seq<Scalar<C>>) -> bool {
+    let n = if srt.len() < vals.len() { srt.len() } else { vals.len() };
+    m.dom() == srt.take(n as int).to_set()
+    && forall|k: int| 0 <= k < n ==> m[#[trigger] srt[k]] == crate::keys::repairable::Delta::<C>(crate::serialization::SerializableScalar(vals[k]))
+}
+
+// one helper's outgoing values: the first |H|-1 helpers (ascending) get the fresh random values, the last one the
+// correcting value, so that the row sums to `total` (RTS, https://eprint.iacr.org/2017/1155)
+pub open spec fn spec_is_delta_row<C: Ciphersuite>(m: Map<Identifier<C>, crate::keys::repairable::Delta<C>>, srt: Seq<Identifier<C>>, vals: Seq<Scalar<C>>, total: Scalar<C>) -> bool {
+    srt.len() == vals.len() + 1
+    && m.dom() == srt.to_set()
+    && (forall|k: int| 0 <= k < vals.len() ==> m[#[trigger] srt[k]].0.0 == vals[k])
+    && m[srt.last()].0.0 == ssub::<C>(total, spec_scalar_sum::<C>(vals, vals.len()))
+}
+
+pub proof fn lemma_delta_row<C: Ciphersuite>(m0: Map<Identifier<C>, crate::keys::repairable::Delta<C>>, srt: Seq<Identifier<C>>, vals: Seq<Scalar<C>>, last: Scalar<C>)
+    requires spec_zip_deltas::<C>(m0, srt, vals), srt.len() == vals.len() + 1, srt.no_duplicates()
+    ensures ({ let m = m0.insert(srt.last(), crate::keys::repairable::Delta::<C>(crate::serialization::SerializableScalar(last)));
+        m.dom() == srt.to_set() && (forall|k: int| 0 <= k < vals.len() ==> m[#[trigger] srt[k]].0.0 == vals[k]) && m[srt.last()].0.0 == last })
+{
+    let m = m0.insert(srt.last(), crate::keys::repairable::Delta::<C>(crate::serialization::SerializableScalar(last)));
+    let n = vals.len() as int;
+    assert(m.dom() =~= srt.to_set()) by {
+        assert forall|x: Identifier<C>| m.dom().contains(x) <==> srt.to_set().contains(x) by {
+            if m0.dom().contains(x) { let w = choose|w: int| 0 <= w < srt.take(n).len() && srt.take(n)[w] == x; assert(srt[w] == x); }
+            if srt.contains(x) { let w = choose|w: int| 0 <= w < srt.len() && srt[w] == x; if w < n { assert(srt.take(n)[w] == x); assert(srt.take(n).contains(x)); } }
+        }
+    }
+    assert forall|k: int| 0 <= k < vals.len() implies m[#[trigger] srt[k]].0.0 == vals[k] by { assert(srt[k] != srt[n]); }
+}
+
+// BTreeSet::last() (greatest element) is the last entry of the ascending enumeration
+pub proof fn lemma_last_is_sorted_last<C: Ciphersuite>(s: Set<Identifier<C>>)
+    requires s.finite(), s.len() > 0, sorted_seq(s).no_duplicates(), sorted_seq(s).to_set() == s, vstd::std_specs::btree::increasing_seq(sorted_seq(s))
+    ensures sorted_seq(s).len() == s.len(),
+        forall|m: Identifier<C>| s.contains(m) && (forall|x: Identifier<C>| #[trigger] s.contains(x) ==> x == m || lt(x, m)) ==> m == sorted_seq(s).last()
+{
+    use_id_order::<C>();
+    broadcast use vstd::std_specs::btree::axiom_increasing_seq_meaning;
+    let q = sorted_seq(s);
+    q.unique_seq_to_set();
+    assert forall|m: Identifier<C>| s.contains(m) && (forall|x: Identifier<C>| #[trigger] s.contains(x) ==> x == m || lt(x, m)) implies m == q.last() by {
+        assert(q.contains(q.last()));
+        assert(s.contains(q.last()));
+        if q.last() != m {
+            assert(lt(q.last(), m));
+            assert(q.to_set().contains(m));
+            let w = choose|w: int| 0 <= w < q.len() && q[w] == m;
+            assert(lt(q[w], q[q.len() - 1]));
+        }
+    }
+}
+
 } // verus!
 }
